@@ -54,7 +54,7 @@ def main():
     for case in range(n_cases):
         n = int(rng.integers(2, 9 if quick else 11))
         cols = ['f1', 'f2', 'label']
-        vals = ['', 'a', 'b', 'c', '{}', 'a b', 'é', '.', 'ab', '(a)', '?', 'N', '+']
+        vals = ['', 'a', 'b', 'c', '{}', 'a b', 'é', '.', 'ab', '(a)', '?', 'N', '+', 'a ', 'A', ' ']
         rows = [[str(rng.choice(vals[:int(rng.integers(2, len(vals) + 1))])) for _ in cols] for _ in range(n)]
         thr = int(rng.integers(0, 4))
         missing = str(rng.choice([',{}', 'NA', ',', '.', 'a.', '(a)', '?', '*,NA', '[a]', 'a|b', '\\N', '+']))   # symbols are literal strings, not patterns
